@@ -8,6 +8,7 @@ import (
 	"strings"
 	"time"
 
+	"github.com/google/gce-tcb-verifier/endorse"
 	epb "github.com/google/gce-tcb-verifier/proto/endorsement"
 	"google.golang.org/protobuf/proto"
 
@@ -142,6 +143,27 @@ func runC15(r *core.Run) {
 			return
 		}
 	}
+	// long-lived callers: the run under test re-uses the endorse.Context of an earlier real run, or
+	// has Context.VCSs seeded with two back ends (library path only)
+	vcs2 := seams.NewSimVCS(r, "/release2")
+	if !q.ViaCLI {
+		switch r.Intn(4, "context-shape") {
+		case 1:
+			real := q
+			real.DryRun, real.MeasurementOnly, real.SnapshotDir, real.Candidate, real.Overwrite = false, false, "", "c15-earlier", true
+			ec := BuildContext(vcs, real)
+			real.Reuse = ec
+			if _, err := Endorse(r, a, vcs, real, scratch); err != nil {
+				r.HarnessErr = "earlier real run on the shared context failed: " + err.Error()
+				return
+			}
+			q.Reuse = ec
+			r.Probe("reused-context")
+		case 2:
+			q.SeedVCSs = []endorse.VersionControl{vcs, vcs2}
+			r.Probe("seeded-vcss")
+		}
+	}
 	calls0 := len(vcs.Calls)
 	head0 := vcs.HeadRev
 	a.Decorate = true
@@ -167,6 +189,9 @@ func runC15(r *core.Run) {
 	if err != nil {
 		r.Fail("dry-run-crash", "error/"+mk, "%s: the run failed: %v", q, err)
 		return
+	}
+	if len(vcs2.Calls) != 0 || vcs2.HeadRev != 0 {
+		r.Fail("dry-run-side-effect", "second-backend/"+mk, "%s: %d calls reached the second seeded version-control back end", q, len(vcs2.Calls))
 	}
 	if n := len(vcs.Calls) - calls0; n != 0 || vcs.HeadRev != head0 {
 		var names []string
